@@ -223,6 +223,9 @@ def reader_sequence(state, buf='packet', cls=None, recv='self'):
                 reads.append(last_ctor)
                 if aliased:
                     problems.append(('alias-then-consume', '%s.pop(0) removes an octet from the buffer that %s still aliases' % (buf, aliased[0]), line))
+            elif ft == buf + '.insert' and len(args) == 2 and args[0] == '0' and not kw:
+                # buf.insert(0, x): one octet is put in front of the buffer (for a sub-parser that expects it)
+                reads.append(Read('insert', None, '-1', '%s.insert(0, %s)' % (buf, args[1]), line))
             elif any(a == buf for a in allargs):
                 if base in ('parse', '_experimental_parse') or ft.startswith('super:'):
                     reads.append(Read('delegate', None, None, '%s(%s)' % (ft, ', '.join(args)), line, via=ft))
